@@ -173,7 +173,8 @@ func C15(e *core.Env) int {
 			switch c.fileForm {
 			case "default":
 				if c.vars {
-					c.outPath = filepath.Join(declDir, "input.gen.go")
+					// <file>.gen.go next to the declaring file: only the extension is replaced
+					c.outPath = filepath.Join(declDir, strings.TrimSuffix(declFile(s.name, c.pkgDir), ".go")+".gen.go")
 				} else {
 					c.outPath = filepath.Join(declDir, "generated", "generated.go")
 				}
@@ -280,7 +281,7 @@ func C15(e *core.Env) int {
 		}
 		files := map[string]string{}
 		for pd, sb := range srcs {
-			files[pd+"/input.go"] = sb.String()
+			files[pd+"/"+declFile(s.name, pd)] = sb.String()
 		}
 		writeFiles(dir, files)
 		for d, name := range existingAt {
@@ -484,4 +485,17 @@ func usesNameOnly(cs []*c15Conv) bool {
 // c15MustSucceed: layouts without custom names in existing packages are always valid.
 func c15MustSucceed(cs []*c15Conv) bool {
 	return !usesNameOnly(cs)
+}
+
+// declFile is the name of the declaring file of a package directory in a scenario (names with several dots included).
+func declFile(scen, pkgDir string) string {
+	names := []string{"input.go", "user.v1.go", "a.b.c.go", "input.go"}
+	h := 0
+	for _, c := range scen + pkgDir {
+		h = h*31 + int(c)
+	}
+	if h < 0 {
+		h = -h
+	}
+	return names[h%len(names)]
 }
